@@ -73,6 +73,14 @@ func init() {
 			return fr.i.needPS("verifrt.Allocated").allocBytes
 		},
 		"Symbolic": func(fr *frame, args []value) value { return true },
+		"HangBudget": func(fr *frame, args []value) value {
+			ps := fr.i.needPS("verifrt.HangBudget")
+			ps.hangBudget = ps.steps + args[0].(int)
+			if args[0].(int) == 0 {
+				ps.hangBudget = 0
+			}
+			return nil
+		},
 	} {
 		externals[p+name] = e
 	}
